@@ -225,7 +225,12 @@ impl TirGen {
                 Param::ExpectValue(n, t)
             }
             3 => Param::ExpectValue(self.string(rng), self.ty(rng)),
-            4 => Param::ExpectInput(format!("in{}", rng.below(3)), self.input_query(rng, depth + 1)),
+            4 => {
+                // one query per name: `find_queries` keeps one entry per name and which one survives
+                // would depend on hash order
+                self.utxo_counter += 1;
+                Param::ExpectInput(format!("q{}", self.utxo_counter), self.input_query(rng, depth + 1))
+            }
             _ => Param::ExpectFees,
         }
     }
